@@ -1,6 +1,7 @@
 (* C19 property theorems *)
 From Coq Require Import Arith List Bool.
 From EP Require Import C19.Model C19.Proofs.
+From EP Require Gen.C19Shape.
 Import ListNotations.
 
 (* every collation block leaves the lock free and LC_COLLATE as it found it: any setlocale oracle, any collation
@@ -40,3 +41,9 @@ Example C19_nonvacuous :
   run avail [0; 1; 1; 0; 0; 1; 1; 0; 1] (mkg false 9, [Idle [Loc 3 false; Loc 5 true]; Idle [NoLocale; Loc 3 true]])
   = (mkg false 9, [Idle []; Idle []]).
 Proof. vm_compute. reflexivity. Qed.
+
+(* the statements of /repo that the hand model mirrors are present in the source as read on this run (T-data,
+   harness/shape.py -> Gen/C19Shape.v) *)
+Theorem C19_source_shape : Gen.C19Shape.shape_ok = true.
+Proof. reflexivity. Qed.
+Print Assumptions C19_source_shape.
